@@ -478,9 +478,13 @@ func (d *dealer) syncRegister(callee *wamp.Session, msg *wamp.Register, match, i
 		// There is an existing registration(s) for this procedure. See if
 		// invocation policy allows another.
 
-		// Found an existing registration that has an invocation strategy that
-		// only allows a single callee on the given registration.
-		if reg.policy == "" || reg.policy == wamp.InvokeSingle {
+		// Only the shared registration policies allow more than one callee on
+		// a registration. Any other invocation strategy, including one this
+		// dealer does not know, only allows a single callee on the given
+		// registration.
+		switch reg.policy {
+		case wamp.InvokeRoundRobin, wamp.InvokeRandom, wamp.InvokeFirst, wamp.InvokeLast:
+		default:
 			d.log.Println("REGISTER for already registered procedure",
 				msg.Procedure, "from callee", callee)
 			d.trySend(callee, &wamp.Error{
